@@ -69,6 +69,18 @@ def seed_group(files: dict[str, str], flags: list[str], targets: list[str], seed
             r = common.run_cli(args, cwd=d, env=env, timeout=300)
             out[hs] = {"out": r["out"], "err": r["err"], "status": r["status"],
                        "cache": dump_cache(cache) if os.path.isdir(cache) else {}}
+            if hs == seeds[0] and os.path.isdir(cache):
+                shutil.rmtree(os.path.join(d, ".c0"), ignore_errors=True)
+                shutil.copytree(cache, os.path.join(d, ".c0"))
+        # warm replay: identical cache contents, identical files, only the hash seed differs
+        if os.path.isdir(os.path.join(d, ".c0")):
+            for hs in seeds:
+                shutil.rmtree(cache, ignore_errors=True)
+                shutil.copytree(os.path.join(d, ".c0"), cache)
+                env = common.base_env()
+                env["PYTHONHASHSEED"] = hs
+                r = common.run_cli(["--no-sqlite-cache", fmtflag, "--cache-dir", ".c", *flags, *targets], cwd=d, env=env, timeout=300)
+                out[hs]["warm"] = {"out": r["out"], "status": r["status"]}
         return out
     finally:
         shutil.rmtree(d, ignore_errors=True)
